@@ -98,6 +98,9 @@ def mutate(rec):
         return rec
     if 'raised' in out:
         return None
+    if rec['op'] == 'argkept':
+        out['arg'] = [x + 1 for x in out['arg']]
+        return rec
     if rec['op'] == 'keep':
         out['f'] = 'False' if out['f'] == 'True' else 'True'
         return rec
